@@ -664,10 +664,11 @@ Case ==
       valsU |-> IF SignDevs = {} THEN <<>> ELSE Unpack(TheDef, data, 0, psz, SignDevs).v,
       signDevs |-> SetToSeq(SignDevs),
       valsDev |-> LET U    == [D \in (SUBSET UnpDevNames) \ {{}} |-> two(D)]
-                      cands == {D \in DOMAIN U : U[D][1].v # exp}
+                      sig(D) == <<U[D][1].v, U[D][Len(U[D])].v, U[D][1].x > Len(data)>>     \* both readings, out of bounds
+                      sig0  == <<exp, two({})[Len(two({}))].v, FALSE>>
+                      cands == {D \in DOMAIN U : sig(D) # sig0}
                       \* keep, for every distinct wrong result, the smallest deviation sets producing it
-                      minimal == {D \in cands : ~\E E \in cands : E # D /\ E \subseteq D /\ U[E][1].v = U[D][1].v
-                                                                   /\ (U[E][1].x > Len(data)) = (U[D][1].x > Len(data))}
+                      minimal == {D \in cands : ~\E E \in cands : E # D /\ E \subseteq D /\ sig(E) = sig(D)}
                   IN SetToSeq({[devs |-> SetToSeq(D), vals |-> U[D][1].v, oob |-> U[D][1].x > Len(data),
                                 valsU |-> IF SignDevs = {} THEN <<>> ELSE U[D][2].v,
                                 trig |-> UnpTrig(TheDef, U[D][1].v, psz, TRUE)] : D \in minimal}),
